@@ -299,7 +299,7 @@ structure CycOK (f : V.Flat) (cname : String) (topo : List (LHS × Expr)) (info0
   clk_undriven : ∀ a, a ∈ f.assigns → tgt a ≠ cname
   procs : ∀ ep, ep ∈ f.procs → (∃ c, ep.1 = .pos c) ∧ NbaLid ep.2 ∧ cname ∉ nbaTgts ep.2
   follows : ∀ ep c, ep ∈ f.procs → ep.1 = .pos c → ∀ r : Rd, r.info = info0 → Settled f.assigns r →
-    ∀ b, r.val cname = ⟨1, b, true⟩ → r.val c = ⟨1, b, true⟩
+    ∀ b, b < 2 → r.val cname = ⟨1, b, true⟩ → r.val c = ⟨1, b, true⟩
 
 theorem CycOK.nostar {f : V.Flat} {cname : String} {topo : List (LHS × Expr)} {info0 : String → Option SigInfo}
     (h : CycOK f cname topo info0) : NoStar f := by
@@ -413,30 +413,173 @@ theorem half_high (m : Sim) (h : CycOK m.flat m.clk topo m.st.rd.info) (hl : ∀
     intro ep hep
     obtain ⟨⟨c, hc⟩, _⟩ := h.procs ep hep
     refine ⟨c, hc, ?_, ?_⟩
-    · exact bitOf_known m.st c 0 (by omega) (h.follows ep c hep hc m.st.rd rfl hS 0 hlow)
+    · exact bitOf_known m.st c 0 (by omega) (h.follows ep c hep hc m.st.rd rfl hS 0 (by omega) hlow)
     · apply bitOf_known m1.st c 1 (by omega)
       rw [hrd1]
-      exact h.follows ep c hep hc re hie' hSe 1 hclke
-  have hfold := fold_fired
-  unfold Sim.half
-  simp only [hm1, hfired]
-  have hfa := (fold_fired (fun acc p => ((runProc acc.1 p).1, acc.2 ++ (runProc acc.1 p).2)) (fun _ _ => rfl)
+      exact h.follows ep c hep hc re hie' hSe 1 (by omega) hclke
+  have hfa0 := (fold_fired (fun acc p => ((runProc acc.1 p).1, acc.2 ++ (runProc acc.1 p).2)) (fun _ _ => rfl)
     m.flat.procs hpos m1.st [])
-  rw [hrd1] at hfa
-  have hfire1 : (fireAll m.flat.procs re).1 = re := hfa.2
-  refine ⟨?_, hfire1, ?_⟩
-  · cases hprocs : m.flat.procs with
-    | nil =>
-      simp only [List.map_nil, deltaLoop_nil, hrd1, fireAll, List.foldl, applyNbaA]
-      exact hidem.symm
+  have hfire1 : (fireAll m.flat.procs re).1 = re := by have := hfa0.2; rw [hrd1] at this; exact this
+  -- the queue: whole-variable writes that leave the base clock alone
+  have hQ : ∀ tv, tv ∈ (fireAll m.flat.procs re).2 → ∃ n, tv.1 = .whole n := by
+    intro tv htv
+    rcases fireAll_queue m.flat.procs hpos re [] tv htv with h0 | ⟨ep, n, _, _, e⟩
+    · cases h0
+    · exact ⟨n, e⟩
+  -- the Sim after firing, applying and settling
+  let m2 : Sim := ({ m1 with st := applyNba m1.st (fireAll m.flat.procs re).2 } : Sim).settle
+  have hap : (applyNba m1.st (fireAll m.flat.procs re).2).rd = applyNbaA re (fireAll m.flat.procs re).2 := by
+    rw [applyNba_rd _ _ hQ, hrd1]
+  have hm2 := sim_settle_rd ({ m1 with st := applyNba m1.st (fireAll m.flat.procs re).2 } : Sim)
+    (by show NoStar m1.flat; rw [hflat1]; exact h.nostar) (topo := topo) (by show m1.flat.assigns.Perm topo; rw [hflat1]; exact h.perm)
+    h.acyc (by
+      intro a ha
+      show LhsOk (applyNba m1.st (fireAll m.flat.procs re).2).rd a.1
+      rw [hap]
+      have ha' : a ∈ m.flat.assigns := by rw [← hflat1]; exact ha
+      exact LhsOk_congr (r := m.st.rd) (by rw [applyNbaA_info, hie']) (hl a ha'))
+  have hm2rd : m2.st.rd = settleA m.flat.assigns (applyNbaA re (fireAll m.flat.procs re).2) := by
+    rw [hm2.1]
+    show settleA m1.flat.assigns (applyNba m1.st (fireAll m.flat.procs re).2).rd = _
+    rw [hflat1, hap]
+  have hnone2 : ∀ st, firedProcs m1.flat (snapshotEv m1.flat m1.st) st = [] := by
+    intro st
+    apply fired_none
+    intro ep hep
+    rw [hflat1] at hep
+    obtain ⟨⟨c, hc⟩, _⟩ := h.procs ep hep
+    refine ⟨c, hc, ?_⟩
+    rw [bitOf_known m1.st c 1 (by omega) (by rw [hrd1]; exact h.follows ep c hep hc re hie' hSe 1 (by omega) hclke)]
+    simp
+  have hfoldq : (m.flat.procs.map Prod.snd).foldl (fun acc p => ((runProc acc.1 p).1, acc.2 ++ (runProc acc.1 p).2)) (m1.st, [])
+      = (m1.st, (fireAll m.flat.procs re).2) := by
+    rw [hfa0.1, hrd1]; rfl
+  have hhalf : m.half 1 = (if (m.flat.procs.map Prod.snd).isEmpty then m1 else m2) := by
+    unfold Sim.half
+    simp only [hm1, hfired]
+    cases hprocs : m.flat.procs with
+    | nil => simp only [List.map_nil, deltaLoop_nil, List.isEmpty_nil, if_true]
     | cons ep0 rest =>
       rw [← hprocs]
       have hne : (m.flat.procs.map Prod.snd).isEmpty = false := by rw [hprocs]; rfl
       rw [deltaLoop]
-      simp only [hne, Bool.false_eq_true, if_false]
-      trace_state
-      sorry
-  · sorry
+      simp only [hne, Bool.false_eq_true, if_false, hfoldq, hnone2, deltaLoop_nil]
+      rfl
+  rw [hhalf]
+  cases hprocs : m.flat.procs with
+  | nil =>
+    simp only [List.map_nil, List.isEmpty_nil, if_true]
+    refine ⟨?_, ?_, herr1, hflat1, hclk1⟩
+    · rw [hrd1]
+      simp only [hprocs, fireAll, List.foldl, applyNbaA]
+      exact hidem.symm
+    · rw [← hprocs]; exact hfire1
+  | cons ep0 rest =>
+    have hne : ((ep0 :: rest).map Prod.snd).isEmpty = false := rfl
+    simp only [hne, Bool.false_eq_true, if_false]
+    rw [← hprocs]
+    refine ⟨hm2rd, hfire1, ?_, ?_, ?_⟩
+    · exact hm2.2.1.trans herr1
+    · exact hm2.2.2.1.trans hflat1
+    · exact hm2.2.2.2.trans hclk1
+
+/-- **the shipped `Sim.cycle` is `cycleA`** (between cycles the base clock and every block clock are high): the reader of
+    the store after the falling and the rising half is `cycleA` of the reader before; no error is logged; the clocks are
+    high again, the declarations unchanged -/
+theorem cycle_rd (m : Sim) (h : CycOK m.flat m.clk topo m.st.rd.info) (hl : ∀ a, a ∈ m.flat.assigns → LhsOk m.st.rd a.1)
+    (hclk : m.st.rd.val m.clk = ⟨1, 1, true⟩)
+    (hcs : ∀ ep c, ep ∈ m.flat.procs → ep.1 = .pos c → m.st.rd.val c = ⟨1, 1, true⟩) :
+    m.cycle.st.rd = cycleA m.flat m.st.rd ∧ m.cycle.errors = m.errors ∧ m.cycle.flat = m.flat ∧ m.cycle.clk = m.clk ∧
+    m.cycle.st.rd.info = m.st.rd.info ∧ m.cycle.st.rd.val m.clk = ⟨1, 1, true⟩ ∧
+    (∀ ep c, ep ∈ m.flat.procs → ep.1 = .pos c → m.cycle.st.rd.val c = ⟨1, 1, true⟩) := by
+  obtain ⟨h0rd, h0err, h0flat, h0clk⟩ := half_low m h hl hcs
+  -- the state after the falling half
+  have hlw0 : ∀ a, a ∈ m.flat.assigns → LhsOk (withClk m.st.rd m.clk 0) a.1 :=
+    fun a ha => LhsOk_congr (r := m.st.rd) (r' := withClk m.st.rd m.clk 0) rfl (hl a ha)
+  obtain ⟨hSb, hib, hmb, hub, _⟩ := settleA_settled h.perm h.acyc (withClk m.st.rd m.clk 0) hlw0
+  have hinfo0 : (m.half 0).st.rd.info = m.st.rd.info := by rw [h0rd]; exact hib
+  have hlowb : (m.half 0).st.rd.val (m.half 0).clk = ⟨1, 0, true⟩ := by
+    rw [h0clk, h0rd, hub m.clk (fun a ha => h.clk_undriven a ha)]; simp [withClk]
+  have hC' : CycOK (m.half 0).flat (m.half 0).clk topo (m.half 0).st.rd.info := by rw [h0flat, h0clk, hinfo0]; exact h
+  have hl' : ∀ a, a ∈ (m.half 0).flat.assigns → LhsOk (m.half 0).st.rd a.1 := by
+    intro a ha
+    rw [h0flat] at ha
+    exact LhsOk_congr (r := m.st.rd) hinfo0.symm (hl a ha)
+  have hS' : Settled (m.half 0).flat.assigns (m.half 0).st.rd := by rw [h0flat, h0rd]; exact hSb
+  obtain ⟨h1rd, h1fire, h1err, h1flat, h1clk⟩ := half_high (m.half 0) hC' hl' hS' hlowb
+  rw [h0flat, h0clk, h0rd] at h1rd h1fire
+  -- settling with the clock high again gives the settled store of the start
+  have hlw1 : ∀ a, a ∈ m.flat.assigns →
+      LhsOk (withClk (settleA m.flat.assigns (withClk m.st.rd m.clk 0)) m.clk 1) a.1 :=
+    fun a ha => LhsOk_congr (r := m.st.rd) (r' := withClk (settleA m.flat.assigns (withClk m.st.rd m.clk 0)) m.clk 1)
+      (by show m.st.rd.info = (settleA m.flat.assigns (withClk m.st.rd m.clk 0)).info; rw [hib]; rfl) (hl a ha)
+  obtain ⟨hSe, hie, hme, hue, _⟩ := settleA_settled h.perm h.acyc _ hlw1
+  obtain ⟨hS1, hi1, hm1, hu1, _⟩ := settleA_settled h.perm h.acyc m.st.rd hl
+  have hre : settleA m.flat.assigns (withClk (settleA m.flat.assigns (withClk m.st.rd m.clk 0)) m.clk 1)
+      = settleA m.flat.assigns m.st.rd := by
+    apply rd_ext
+    · rw [hie, hi1]; show (settleA m.flat.assigns (withClk m.st.rd m.clk 0)).info = _; rw [hib]; rfl
+    · rw [hme, hm1]; show (settleA m.flat.assigns (withClk m.st.rd m.clk 0)).mem = _; rw [hmb]; rfl
+    · apply FlatM.settled_unique topo h.acyc
+      · rw [hie, hi1]; show (settleA m.flat.assigns (withClk m.st.rd m.clk 0)).info = _; rw [hib]; rfl
+      · rw [hme, hm1]; show (settleA m.flat.assigns (withClk m.st.rd m.clk 0)).mem = _; rw [hmb]; rfl
+      · exact (settled_perm h.perm _).mp hSe
+      · exact (settled_perm h.perm _).mp hS1
+      · intro n hn
+        have hn' : ∀ a, a ∈ m.flat.assigns → tgt a ≠ n := fun a ha e => hn a (h.perm.mem_iff.mp ha) e.symm
+        rw [hue n hn', hu1 n hn']
+        by_cases e : n = m.clk
+        · subst e; simp [withClk, hclk]
+        · have e1 : (withClk (settleA m.flat.assigns (withClk m.st.rd m.clk 0)) m.clk 1).val n =
+              (settleA m.flat.assigns (withClk m.st.rd m.clk 0)).val n := by
+            show (if n = m.clk then _ else _) = _
+            rw [if_neg e]
+          have e2 : (withClk m.st.rd m.clk 0).val n = m.st.rd.val n := by
+            show (if n = m.clk then _ else _) = _
+            rw [if_neg e]
+          rw [e1, hub n hn', e2]
+  rw [hre] at h1rd h1fire
+  have hcyc : m.cycle.st.rd = cycleA m.flat m.st.rd := by
+    show ((m.half 0).half 1).st.rd = _
+    rw [h1rd]
+    unfold cycleA
+    simp only [h1fire]
+  -- the clocks after the cycle
+  have hq : ∀ tv, tv ∈ (fireAll m.flat.procs (settleA m.flat.assigns m.st.rd)).2 → ∃ n, tv.1 = .whole n ∧ n ≠ m.clk := by
+    intro tv htv
+    rcases fireAll_queue m.flat.procs (fun ep hep => ⟨(h.procs ep hep).1, (h.procs ep hep).2.1⟩) _ [] tv htv with h0 | ⟨ep, n, hep, hn, e⟩
+    · cases h0
+    · exact ⟨n, e, fun e' => (h.procs ep hep).2.2 (e' ▸ hn)⟩
+  have hapclk : ∀ (q : List (Tgt × BV)) (r : Rd), (∀ tv, tv ∈ q → ∃ n, tv.1 = .whole n ∧ n ≠ m.clk) →
+      (applyNbaA r q).val m.clk = r.val m.clk := by
+    intro q
+    induction q with
+    | nil => intro r _; rfl
+    | cons tv q ih =>
+      intro r hq'
+      obtain ⟨n, hn, hne⟩ := hq' tv (by simp)
+      simp only [applyNbaA, List.foldl] at ih ⊢
+      rw [ih _ (fun tv' h' => hq' tv' (by simp [h']))]
+      rw [hn]
+      simp only [wrA, setWhole]
+      rw [if_neg (fun e => hne e.symm)]
+  have hlf : ∀ a, a ∈ m.flat.assigns → LhsOk (applyNbaA (settleA m.flat.assigns m.st.rd)
+      (fireAll m.flat.procs (settleA m.flat.assigns m.st.rd)).2) a.1 :=
+    fun a ha => LhsOk_congr (r := m.st.rd) (by rw [applyNbaA_info, hi1]) (hl a ha)
+  obtain ⟨hSf, hif, _, huf, _⟩ := settleA_settled h.perm h.acyc _ hlf
+  have hfin : cycleA m.flat m.st.rd = settleA m.flat.assigns (applyNbaA (settleA m.flat.assigns m.st.rd)
+      (fireAll m.flat.procs (settleA m.flat.assigns m.st.rd)).2) := by
+    unfold cycleA; simp only [h1fire]
+  have hinfoF : m.cycle.st.rd.info = m.st.rd.info := by rw [hcyc, hfin, hif, applyNbaA_info, hi1]
+  have hclkF : m.cycle.st.rd.val m.clk = ⟨1, 1, true⟩ := by
+    rw [hcyc, hfin, huf m.clk (fun a ha => h.clk_undriven a ha), hapclk _ _ hq, hu1 m.clk (fun a ha => h.clk_undriven a ha), hclk]
+  refine ⟨hcyc, ?_, ?_, ?_, hinfoF, hclkF, ?_⟩
+  · exact h1err.trans h0err
+  · exact h1flat.trans h0flat
+  · exact h1clk.trans h0clk
+  · intro ep c hep hc
+    apply h.follows ep c hep hc _ hinfoF _ 1 (by omega) hclkF
+    rw [hcyc, hfin]; exact hSf
 
 end Cycle
 end FlatM
